@@ -1173,6 +1173,16 @@ def _geometries(rng, n, edges, kind):
             dvec = rng.choice([-1.0, 1.0], 3)
         elif kind == "collinear-near-axis":
             dvec = np.eye(3)[int(rng.integers(0, 3))] * rng.choice([-1.0, 1.0]) + np.array([0.6, -0.8, 0.3]) * float(rng.choice([3e-7, 1e-6, 4e-5, 1e-3]))
+        elif kind == "unit-neighbour-distance":
+            # distances from the anchor to its frame neighbours equal or very close to 1 nm (special magnitude of a normalisation)
+            u = rng.normal(size=3)
+            u /= np.linalg.norm(u)
+            w = rng.normal(size=3)
+            w /= np.linalg.norm(w)
+            P[a] = np.round(P[a] * 4) / 4
+            P[n2] = P[a] + u * (1.0 + float(rng.choice([0.0, 1e-7, -3e-6, 9e-6])))
+            P[n1] = P[a] + w * float(rng.choice([1.0, 1.0 + 3e-6, 0.6]))
+            return P
         elif kind == "nearly-straight":
             # NOT collinear: the angle at the anchor differs from straight by a small but resolvable amount (sine 1e-5 .. 2e-2)
             dvec = rng.normal(size=3)
@@ -1392,8 +1402,9 @@ def task_numeric_generic(prop, tier, seed):
     rng = np.random.default_rng(777 + seed)
     N = 30 if tier == "quick" else 300
     out = []
-    kinds = {"C02": ("generic", "nearly-straight", "collinear-axis", "collinear-diagonal", "collinear-near-axis", "collinear-integer-direction", "two-atom", "one-atom"),
-             "C03": ("generic", "nearly-straight", "collinear-axis", "collinear-near-axis", "collinear-integer-direction"), "C04": ("generic", "nearly-straight", "collinear-axis")}[prop]
+    kinds = {"C02": ("generic", "nearly-straight", "unit-neighbour-distance", "collinear-axis", "collinear-diagonal", "collinear-near-axis", "collinear-integer-direction", "two-atom", "one-atom"),
+             "C03": ("generic", "nearly-straight", "unit-neighbour-distance", "collinear-axis", "collinear-near-axis", "collinear-integer-direction"),
+             "C04": ("generic", "nearly-straight", "unit-neighbour-distance", "collinear-axis")}[prop]
     for kind in kinds:
         first, nbad, nrun = None, 0, 0
         for t_ in range(N):
@@ -1438,7 +1449,7 @@ def task_numeric_law(prop, tier, seed):
     rng = np.random.default_rng(321 + seed)
     N = 40 if tier == "quick" else 400
     out = []
-    for kind in ("generic", "collinear-axis", "collinear-diagonal", "collinear-near-axis", "collinear-integer-direction"):
+    for kind in ("generic", "collinear-axis", "collinear-diagonal", "collinear-near-axis", "collinear-integer-direction", "nearly-straight", "unit-neighbour-distance"):
         first, nbad, nrun = None, 0, 0
         for t in range(N):
             n = int(rng.integers(3, 8))
